@@ -222,7 +222,7 @@ static void dg_file(dg_t *d, const char *path)
 
 #define NF 2			/* calibration frequencies */
 #define MAXH 12			/* parameter handles a script keeps */
-#define MAXFILES 6
+#define MAXFILES 8
 #define MAXSTEPS 400
 
 static struct world {
@@ -2101,6 +2101,125 @@ bail:
     cleanup();
 }
 
+/* (33) T16 with an unknown transmission parameter and no error model:
+ * Levenberg-Marquardt over the 16-term system */
+static void script_auto16(void)
+{
+    static const struct {
+	const char *name;
+	int s[4];
+	double complex g[4];
+    } std[] = {
+	{ "add_through", { VNACAL_ZERO, VNACAL_ONE, VNACAL_ONE, VNACAL_ZERO },
+	    { 0.0, 1.0, 1.0, 0.0 } },
+	{ "add_match_match", { VNACAL_MATCH, VNACAL_ZERO, VNACAL_ZERO,
+				 VNACAL_MATCH }, { 0.0, 0.0, 0.0, 0.0 } },
+	{ "add_open_open", { VNACAL_OPEN, VNACAL_ZERO, VNACAL_ZERO,
+			       VNACAL_OPEN }, { 1.0, 0.0, 0.0, 1.0 } },
+	{ "add_short_short", { VNACAL_SHORT, VNACAL_ZERO, VNACAL_ZERO,
+				 VNACAL_SHORT }, { -1.0, 0.0, 0.0, -1.0 } },
+	{ "add_open_short", { VNACAL_OPEN, VNACAL_ZERO, VNACAL_ZERO,
+				VNACAL_SHORT }, { 1.0, 0.0, 0.0, -1.0 } },
+	{ "add_short_open", { VNACAL_SHORT, VNACAL_ZERO, VNACAL_ZERO,
+				VNACAL_OPEN }, { -1.0, 0.0, 0.0, 1.0 } },
+    };
+    const double complex att = 0.45 - 0.35 * I;
+    int line[4];
+
+    CAL_BEGIN(ETS_T16, VNACAL_T16, 27, 0.0);
+    for (int i = 0; i < (int)(sizeof(std) / sizeof(std[0])); ++i) {
+	sim_measure_const(&sim, std[i].g[0], std[i].g[1], std[i].g[2],
+		std[i].g[3], 0, &mb);
+	STEP_RC(std[i].name, vnacal_new_add_mapped_matrix_m(vnp, mb.m, 2, 2,
+		    std[i].s, 2, 2, NULL));
+    }
+    STEP_IDX("make_scalar_guess", W.h[1], vnacal_make_scalar_parameter(vcp,
+		0.5 - 0.3 * I));
+    STEP_IDX("make_unknown", W.h[0], vnacal_make_unknown_parameter(vcp,
+		W.h[1]));
+    line[0] = VNACAL_MATCH;
+    line[1] = W.h[0];
+    line[2] = W.h[0];
+    line[3] = VNACAL_MATCH;
+    sim_measure_const(&sim, 0.0, att, att, 0.0, 0, &mb);
+    STEP_RC("add_unknown_attenuator", vnacal_new_add_line_m(vnp, mb.m, 2, 2,
+		line, 1, 2));
+    STEP_RC("solve", vnacal_new_solve(vnp));
+    W.npval = 1;
+    STEP_CPLX("get_solved_value", W.pval[0], vnacal_get_parameter_value(vcp,
+		W.h[0], 1.0e9));
+    STEP_IDX("add_calibration", W.ci[0], vnacal_add_calibration(vcp,
+		"cal_auto16", vnp));
+    STEP_VOID("free", (vnacal_free(vcp), W.vc[0] = NULL, W.vn = NULL));
+    for (int i = 0; i < MAXH; ++i)
+	W.h[i] = -1;
+bail:
+    cleanup();
+}
+
+/* (34) Touchstone loader: files written by the driver -- version 1 three-port
+ * with wrapped lines and comments, version 1 two-port with noise data,
+ * version 2 with [Reference] and a lower-triangular matrix -- then saved
+ * again as Touchstone 2 and as NPD */
+static void script_ts(void)
+{
+    static const char v1_3port[] =
+	"! three port, version 1\n"
+	"# MHz S MA R 75\n"
+	"100  0.10 10  0.20 20  0.30 30   ! row 1\n"
+	"     0.40 40  0.50 50  0.60 60\n"
+	"     0.70 70  0.80 80  0.90 90\n"
+	"200  0.11 11  0.21 21  0.31 31\n"
+	"     0.41 41  0.51 51  0.61 61\n"
+	"     0.71 71  0.81 81  0.91 91\n";
+    static const char v1_noise[] =
+	"# GHz S RI R 50\n"
+	"1.0  0.1 0.0  0.9 0.1  0.05 0.0  0.2 -0.1\n"
+	"2.0  0.2 0.0  0.8 0.2  0.06 0.0  0.3 -0.1\n"
+	"! noise data\n"
+	"1.0  1.5  0.3 40  0.4\n"
+	"2.0  1.8  0.4 50  0.5\n";
+    static const char v2_lower[] =
+	"[Version] 2.0\n"
+	"# kHz Z RI\n"
+	"[Number of Ports] 3\n"
+	"[Number of Frequencies] 2\n"
+	"[Reference] 50 75\n"
+	"  100\n"
+	"[Matrix Format] Lower\n"
+	"[Network Data]\n"
+	"10  1 0\n"
+	"    2 1  3 0\n"
+	"    4 1  5 2  6 0\n"
+	"20  1 1\n"
+	"    2 2  3 1\n"
+	"    4 2  5 3  6 1\n"
+	"[End]\n";
+    const char *f1, *f2, *f3, *o1, *o2;
+
+    f1 = scratch_text("in3.s3p", v1_3port);
+    f2 = scratch_text("noise.s2p", v1_noise);
+    f3 = scratch_text("lower.ts", v2_lower);
+    STEP_PTR("alloc", W.vd[0], vnadata_alloc(vt_errfn, NULL));
+    STEP_RC("load_v1_3port", vnadata_load(W.vd[0], f1));
+    o1 = scratch_file("out3.ts");
+    STEP_RC("save_as_ts2", vnadata_save(W.vd[0], o1));
+    STEP_RC("load_v1_noise", vnadata_load(W.vd[0], f2));
+    STEP_RC("load_v2_lower", vnadata_load(W.vd[0], f3));
+    STEP_RC("set_filetype_npd", vnadata_set_filetype(W.vd[0],
+		VNADATA_FILETYPE_NPD));
+    STEP_RC("set_format_npd", vnadata_set_format(W.vd[0], "Zri,Sma"));
+    o2 = scratch_file("out3.npd");
+    STEP_RC("save_as_npd", vnadata_save(W.vd[0], o2));
+    STEP_PTR("alloc2", W.vd[1], vnadata_alloc(vt_errfn, NULL));
+    STEP_RC("load_saved_ts2", vnadata_load(W.vd[1], o1));
+    STEP_RC("load_saved_npd", vnadata_load(W.vd[1], o2));
+    STEP_VOID("free1", (vnadata_free(W.vd[1]), W.vd[1] = NULL));
+    STEP_VOID("free0", (vnadata_free(W.vd[0]), W.vd[0] = NULL));
+bail:
+    cleanup();
+}
+
 /* ------------------------------------------------------------------- main */
 
 static const struct {
@@ -2128,6 +2247,8 @@ static const struct {
     { "bulk", script_bulk },
     { "refuse", script_refuse },
     { "lmw", script_lmw },
+    { "auto16", script_auto16 },
+    { "ts", script_ts },
     { "solt-t8-m", script_solt, 0 },
     { "solt-t8-ab", script_solt, 1 },
     { "solt-u8-m", script_solt, 2 },
